@@ -16,7 +16,7 @@ import fam_merge
 
 NAME = "parsesig"
 
-ARG_NAMES = ["a", "b", "x", "y", "value", "name", "K", "dataset_name", "batch_size", "lr", "opt", "as_numpy", "tfds_dir"]
+ARG_NAMES = ["a", "b", "x", "y", "value", "name", "K", "dataset_name", "batch_size", "lr", "opt", "as_numpy", "tfds_dir", "opt_kwargs"]
 KW_NAMES = ["kwargs", "kwargs", "model_kwargs", "data_loader_kwargs", "kw", "extra"]
 ANNS = ["int", "str", "float", "bool", "Optional[int]", "Optional[str]", "List[str]", "Literal['a', 'b']",
         "Union[int, str]", "Dict[str, int]", "np.ndarray", "'int'", "Callable[[int], str]", "Tuple[int, ...]",
